@@ -481,10 +481,17 @@ func (g *G) hdBody(op, delim string, quoted bool) string {
 		if g.O.HDMultiLine && !quoted {
 			pool = 26
 		}
+		if g.S.Chance(1, 12) {
+			pool = 28 // includes the rare lines 26, 27 (and, for C18/C01 only, 24/25 when allowed)
+		}
 		if g.O.HeredocBodyPool == 1 {
 			pool = 4
 		}
-		switch g.S.Intn(pool) {
+		k := g.S.Intn(pool)
+		if (k == 24 || k == 25) && !(g.O.HDMultiLine && !quoted) {
+			k = 0
+		}
+		switch k {
 		case 0:
 			line = "body line"
 		case 1:
@@ -537,6 +544,10 @@ func (g *G) hdBody(op, delim string, quoted bool) string {
 			} else {
 				line = "$x " + delim
 			}
+		case 26:
+			line = delim + "\r" // carriage return behind the delimiter text: not the delimiter
+		case 27:
+			line = "cat <<" + delim + "x && echo <<-" + delim // looks like here-document operators: plain text
 		case 24:
 			line = "ar $((1 +\n2)) end" // an arithmetic expansion spanning two lines
 		case 25:
@@ -918,6 +929,11 @@ func (g *G) CompleteCommand(last bool) Item {
 	if last && !g.pending() && g.S.Chance(1, 4) {
 		// final command without terminating newline
 		return Item{Text: g.b.String(), HDs: g.hds}
+	}
+	if last && g.pending() && g.S.Chance(1, 4) {
+		// the stream ends right behind the last delimiter line, without a newline
+		g.newline()
+		return Item{Text: strings.TrimSuffix(g.b.String(), "\n"), HDs: g.hds}
 	}
 	g.newline()
 	return Item{Text: g.b.String(), HDs: g.hds}
